@@ -64,6 +64,28 @@ def prepare(ck, prop, spec, scratch, tier):
         imp = write_imports(scratch, spec["engine"], CHECKED_IN + pkgs, man)
         extra[os.path.join(ck.REPO, ZZ, spec["engine"], "imports_gen.go")] = imp
         spec["gen_manifest"] = man
+    if spec.get("mapctl"):
+        import mapctl
+        try:
+            target, patched = mapctl.patched_map_go(scratch.path("rt"))
+        except Exception as e:  # noqa
+            raise ck.Internal("cannot patch runtime/map.go: %s" % e)
+        extra[target] = patched
+    if spec.get("plugins"):
+        spec.setdefault("env", {})
+        spec["env"]["VERIF_PLUGIN"] = build_plugin(ck, scratch)
+        if "mapctl" in spec["plugins"]:
+            import mapctl
+            target, patched = mapctl.patched_map_go(scratch.path("rt"))
+            pov = scratch.path("plugin-mapctl-overlay.json")
+            with open(pov, "w") as fh:
+                json.dump({"Replace": {target: patched}}, fh)
+            pout = scratch.path("protoc-gen-go-pulsar-mapctl")
+            rc, outp = ck.run(["go", "build", "-overlay", pov, "-o", pout, "./cmd/protoc-gen-go-pulsar"], cwd=ck.REPO, timeout=1800)
+            if rc != 0:
+                ck.log(outp[-3000:])
+                raise ck.Internal("the map-controlled plugin does not build")
+            spec["env"]["VERIF_PLUGIN_MAPCTL"] = pout
     ov = ck.build_overlay(scratch, needs, extra)
     out = scratch.path("bin-" + spec["engine"])
     rc, outp = ck.go_build(scratch, ov, ZZ + "/" + spec["engine"], out,
